@@ -1,4 +1,4 @@
-//go:build c20
+//go:build c20 || c15
 
 package verifharness
 
@@ -273,6 +273,13 @@ func TestC20(t *testing.T) {
 	if n := envInt("VERIF_N", 0); n > 0 {
 		hist = int(n)
 	}
+	for i := 0; i < hist; i++ {
+		run(c20GenHistory(r))
+	}
+}
+
+// c20GenHistory draws one history (also used by the C15 harness, which runs the same code outside recovery)
+func c20GenHistory(r *Rec) []string {
 	denoms := []string{"atele", "uatom", "ibc/27394FB092D2ECCD56123C74F36E4C1F926001CEADA9CA97EA622B25F41E5EB2", "xyz", "", "A B", "stake"}
 	amt := func(pool string) string {
 		switch r.Rng.Intn(10) {
@@ -304,7 +311,6 @@ func TestC20(t *testing.T) {
 			return fmt.Sprint(r.Rng.Intn(20))
 		}
 	}
-	for i := 0; i < hist; i++ {
 		h := []string{"reset"}
 		pools := map[string]string{}
 		steps := 3 + r.Rng.Intn(10)
@@ -364,9 +370,9 @@ func TestC20(t *testing.T) {
 				h = append(h, "block")
 			}
 		}
-		run(h)
-	}
+		return h
 }
+
 
 func orZero(s string) string {
 	if s == "" {
